@@ -259,6 +259,9 @@ type MethodSpec struct {
 	CustomRet    string
 	ClientStream bool
 	ServerStream bool
+	// ExplicitFalse lists boolean options (extension numbers) that are present with the value false,
+	// as in `option (gorums.async) = false;`.
+	ExplicitFalse []protowire.Number
 }
 
 // Label is a compact description of the option combination.
@@ -298,6 +301,10 @@ func (m MethodSpec) options() *descriptorpb.MethodOptions {
 	flag(m.Correctable, ExtCorrectable)
 	flag(m.Async, ExtAsync)
 	flag(m.PerNodeArg, ExtPerNodeArg)
+	for _, num := range m.ExplicitFalse {
+		b = protowire.AppendTag(b, num, protowire.VarintType)
+		b = protowire.AppendVarint(b, 0)
+	}
 	if m.CustomRet != "" {
 		b = protowire.AppendTag(b, ExtCustomRet, protowire.BytesType)
 		b = protowire.AppendString(b, m.CustomRet)
